@@ -1032,9 +1032,6 @@ theorem imsqrtR_spec (w : Cx ℝ) (hw : w.re ^ 2 + w.im ^ 2 = 1) : 2 * (imsqrtR 
   unfold imsqrtR
   rw [Real.sq_sqrt h1]; ring
 
-theorem pw_mul_self_unit (z : ℂ) (k : ℤ) : pw 1 k * pw z k = pw z k := by
-  rw [pw_base_one, one_mul]
-
 section
 variable {μ : Type} [Mem μ ℝ] [LawfulMem μ ℝ]
 
